@@ -54,6 +54,11 @@ func (h *HttpServer) handleUploadURLInit(w http.ResponseWriter, r *http.Request)
 		http.NotFound(w, r)
 		return
 	}
+	// Vending pre-signed URLs is behind the authenticator like every other
+	// RPC route: a rejected request must not reach the provider.
+	if auth := h.authenticate(w, r); auth == nil {
+		return
+	}
 	if ct := r.Header.Get("Content-Type"); ct != arrowContentType {
 		h.writeHttpError(w, http.StatusUnsupportedMediaType,
 			fmt.Errorf("unsupported content type: %s", ct), UploadURLResponseSchema)
